@@ -60,6 +60,19 @@ class Merge(Cell):
         return merge_states(old, committed, new)
 
 
+class Flaky(Merge):
+    """A resolver that fails for some inputs the way resolvers usually
+    fail (AttributeError: sub-objects are placeholders inside a resolver)
+    and merges the others."""
+
+    def _p_resolveConflict(self, old, committed, new):
+        RESOLVE_CALLS.append(('Flaky', old, committed, new))
+        if new.get('n', 0) % 2:
+            raise AttributeError("'PersistentReference' object has no "
+                                 "attribute 'value'")
+        return merge_states(old, committed, new)
+
+
 class Boom(Cell):
 
     def _p_resolveConflict(self, old, committed, new):
@@ -81,7 +94,8 @@ class NewArgs(Cell):
         return ()
 
 
-CLASSES = {'Cell': Cell, 'Eager': Eager, 'Merge': Merge, 'Boom': Boom,
+CLASSES = {'Cell': Cell, 'Eager': Eager, 'Merge': Merge, 'Flaky': Flaky,
+           'Boom': Boom,
            'Boom2': Boom2, 'NewArgs': NewArgs}
 
 MODULE = 'zsim.objs'
